@@ -24,7 +24,10 @@ func hWithLeanDB(f func()) {
 
 func VerifHarness_C01_ReadsDB() { hWithDB(func() { hReads(2, 2, hPointAndRangeKinds) }) }
 
-func VerifHarness_C01_ReadsDB3_Thorough() { hWithLeanDB(func() { hReads(3, 2, hPointAndRangeKinds) }) }
+// three levels (L0, L1, L2), fixed placement; three writes in two levels did not finish in 25 minutes
+func VerifHarness_C01_ReadsDB3Levels_Thorough() {
+	hWithLeanDB(func() { hReads(2, 3, hPointAndRangeKinds) })
+}
 
 // hCloseReleases: closing an iterator built by DB.newIter releases the read-state reference.
 func VerifHarness_C01_IterCloseReleases() {
